@@ -81,6 +81,54 @@ fn check_list(l: &mut Law, reference: &[String], p: &Pointer) {
             })
             .collect();
         l.ck(rest.len() == n && rest.iter().zip(reference).all(|(a, b)| a.as_ref() == Some(b)), "components_tokens");
+        // the iterators through their other adaptor methods: a specialised `last` / `count` / `nth` / `size_hint` /
+        // `fold` must say what repeated `next` says, also on partly consumed iterators
+        {
+            let dec_of = |t: Token| t.decoded().into_owned();
+            let comp_dec = |c: Component| match c {
+                Component::Root => None,
+                Component::Token(t) => Some(t.decoded().into_owned()),
+            };
+            l.ck(p.tokens().count() == n, "tokens_count");
+            l.ck(p.tokens().last().map(dec_of).as_ref() == reference.last(), "tokens_last");
+            l.ck(p.tokens().fold(0usize, |a, _| a + 1) == n, "tokens_fold");
+            l.ck(p.components().count() == n + 1, "components_count");
+            l.ck(p.components().last().map(comp_dec) == Some(reference.last().cloned()), "components_last");
+            l.ck(p.components().fold(0usize, |a, _| a + 1) == n + 1, "components_fold");
+            let hint_ok = |h: (usize, Option<usize>), actual: usize| h.0 <= actual && h.1.map_or(true, |u| actual <= u);
+            l.ck(hint_ok(p.tokens().size_hint(), n), "tokens_size_hint");
+            l.ck(hint_ok(p.components().size_hint(), n + 1), "components_size_hint");
+            for i in sample_positions(n + 2, 12) {
+                l.ck(p.tokens().nth(i).map(dec_of).as_ref() == reference.get(i), "tokens_nth");
+                let want = if i == 0 { Some(None) } else { reference.get(i - 1).cloned().map(Some) };
+                l.ck(p.components().nth(i).map(comp_dec) == want, "components_nth");
+                // after i calls of next
+                let adv_t = || {
+                    let mut it = p.tokens();
+                    for _ in 0..i {
+                        it.next();
+                    }
+                    it
+                };
+                let rest = n.saturating_sub(i);
+                l.ck(adv_t().count() == rest, "tokens_count_after_next");
+                l.ck(hint_ok(adv_t().size_hint(), rest), "tokens_size_hint_after_next");
+                l.ck(adv_t().last().map(dec_of).as_ref() == if rest > 0 { reference.last() } else { None }, "tokens_last_after_next");
+                l.ck(adv_t().nth(1).map(dec_of).as_ref() == reference.get(i + 1), "tokens_nth_after_next");
+                let adv_c = || {
+                    let mut it = p.components();
+                    for _ in 0..i {
+                        it.next();
+                    }
+                    it
+                };
+                let restc = (n + 1).saturating_sub(i);
+                l.ck(adv_c().count() == restc, "components_count_after_next");
+                l.ck(hint_ok(adv_c().size_hint(), restc), "components_size_hint_after_next");
+                let want_last = if restc == 0 { None } else { Some(reference.last().cloned()) };
+                l.ck(adv_c().last().map(comp_dec) == want_last, "components_last_after_next");
+            }
+        }
         // a component made from a token is that token
         l.ck(
             p.tokens().zip(p.components().skip(1)).all(|(t, c)| Component::from(t.clone()) == c),
@@ -247,11 +295,25 @@ fn parse_bstep(f: &str) -> Option<BStep> {
     })
 }
 
-fn mk_token(enc: bool, s: &str) -> Token<'_> {
+/// The token argument of a mutator step. `how` varies the way the text reaches `Token::new` (all `impl Into<Token>`
+/// forms must give the same token): 0 = borrowed `&str`, 1 = an owned `String` of exact capacity, 2 = an owned
+/// `String` with spare capacity, 3 = `&String` through `From<&String>`.
+fn mk_token(enc: bool, s: &str, how: usize) -> Token<'static> {
     if enc {
-        Token::from_encoded(s).expect("generator guarantees a valid encoded token")
-    } else {
-        Token::new(s)
+        return Token::from_encoded(s).expect("generator guarantees a valid encoded token").into_owned();
+    }
+    match how % 4 {
+        0 => Token::new(s).into_owned(),
+        1 => Token::new(s.to_string()),
+        2 => {
+            let mut st = String::with_capacity(s.len() + 9 + (s.len() % 7) * 8);
+            st.push_str(s);
+            Token::from(st)
+        }
+        _ => {
+            let st = s.to_string();
+            Token::from(&st).into_owned()
+        }
     }
 }
 
@@ -275,12 +337,12 @@ pub fn op_buf_hist(p: &Pointer, steps: &[&str]) -> Option<String> {
         let before = buf.as_str().to_string();
         let ret: String = match st {
             BStep::Pf(e, s) => {
-                buf.push_front(mk_token(*e, s));
+                buf.push_front(mk_token(*e, s, si + s.len()));
                 dq.push_front(ref_decoded(*e, s));
                 "unit".to_string()
             }
             BStep::Pb(e, s) => {
-                buf.push_back(mk_token(*e, s));
+                buf.push_back(mk_token(*e, s, si + s.len()));
                 dq.push_back(ref_decoded(*e, s));
                 "unit".to_string()
             }
@@ -303,7 +365,7 @@ pub fn op_buf_hist(p: &Pointer, steps: &[&str]) -> Option<String> {
             }
             BStep::Rp(n, e, s) => {
                 let count = dq.len();
-                let r = buf.replace(*n, mk_token(*e, s)).map(|o| o.map(|t| t.into_owned()));
+                let r = buf.replace(*n, mk_token(*e, s, si + s.len())).map(|o| o.map(|t| t.into_owned()));
                 match r {
                     Ok(old) => {
                         if let Some(t) = &old {
